@@ -51,6 +51,7 @@ func main() {
 	budget := flag.Float64("budget", 0, "seconds (0 = none)")
 	horizon := flag.Int("horizon", 20000, "max steps per execution")
 	choices := flag.String("choices", "", "comma separated choice list (replay)")
+	nocache := flag.Bool("nocache", false, "disable happens-before state caching")
 	flag.Parse()
 	runtime.GOMAXPROCS(1)
 	debug.SetGCPercent(400)
@@ -85,7 +86,7 @@ func main() {
 			res.Error = "unknown scenario " + *name
 			return
 		}
-		e := &vsched.Explorer{Name: *name, Params: p.String(), Body: f(p), Bound: *bound, Horizon: *horizon, Shard: sh, NShards: nsh}
+		e := &vsched.Explorer{Name: *name, Params: p.String(), Body: f(p), Bound: *bound, Horizon: *horizon, Shard: sh, NShards: nsh, NoCache: *nocache}
 		if *budget > 0 {
 			e.Deadline = start.Add(time.Duration(*budget * float64(time.Second)))
 		}
